@@ -187,6 +187,72 @@ Proof.
   all: apply Nat.ltb_lt in Hv; lia.
 Qed.
 
+(** * What the writer refuses *)
+Lemma write_data_pages_chk_some pfx fu rgo colo n : forall np,
+  (n = 0%nat \/ N.of_nat (np + n) <= 32768)%N ->
+  write_data_pages_chk pfx fu rgo colo np n = Some (write_data_pages pfx fu rgo colo np n).
+Proof.
+  induction n as [|n IH]; intros np H; cbn [write_data_pages_chk write_data_pages]; [reflexivity|].
+  destruct H as [H|H]; [discriminate|].
+  unfold max_int16. destruct (N.ltb_spec 32767 (N.of_nat np)) as [L|L]; [lia|].
+  rewrite IH; [reflexivity|]. right. lia.
+Qed.
+
+Lemma write_data_pages_chk_none pfx fu rgo colo n : forall np,
+  (n <> 0%nat) -> (32768 < N.of_nat (np + n))%N ->
+  write_data_pages_chk pfx fu rgo colo np n = None.
+Proof.
+  induction n as [|n IH]; intros np H0 H; [contradiction|]. cbn [write_data_pages_chk].
+  unfold max_int16. destruct (N.ltb_spec 32767 (N.of_nat np)) as [L|L]; [reflexivity|].
+  destruct n as [|n]; [lia|]. rewrite IH; [reflexivity|discriminate|lia].
+Qed.
+
+Lemma chunk_accepted_iff c : chunk_accepted c = true <-> (N.of_nat (c_pages c) <= 32768)%N.
+Proof.
+  unfold chunk_accepted. split.
+  - intros H. destruct (N.leb_spec (N.of_nat (c_pages c)) 32768) as [L|L]; [exact L|].
+    rewrite write_data_pages_chk_none in H; [discriminate| |lia]. intros E. rewrite E in L. cbn in L. lia.
+  - intros H. rewrite write_data_pages_chk_some; [reflexivity|]. right. lia.
+Qed.
+
+Lemma layout_accepted_spec lay : layout_accepted lay = true ->
+  (N.of_nat (length lay) <= 32767)%N /\
+  Forall (fun rg => (N.of_nat (length rg) <= 65535)%N /\
+                    Forall (fun c => (N.of_nat (c_pages c) <= 32768)%N) rg) lay.
+Proof.
+  unfold layout_accepted, max_row_groups, max_column_index. rewrite andb_true_iff. intros [H1 H2].
+  apply N.leb_le in H1. split; [exact H1|].
+  apply Forall_forall. intros rg Hrg. rewrite forallb_forall in H2. specialize (H2 rg Hrg).
+  rewrite andb_true_iff in H2. destruct H2 as [H2 H3]. apply N.leb_le in H2. split; [lia|].
+  apply Forall_forall. intros c Hc. rewrite forallb_forall in H3. apply chunk_accepted_iff. apply H3. exact Hc.
+Qed.
+
+Lemma layout_accepted_wf lay : layout_accepted lay = true -> wf_layout lay.
+Proof.
+  intros H. destruct (layout_accepted_spec lay H) as [H1 H2]. split; [lia|].
+  eapply Forall_impl; [|exact H2]. intros rg [A B]. split; [lia|].
+  eapply Forall_impl; [|exact B]. intros c Hc. cbn in Hc. lia.
+Qed.
+
+(** A chunk with more than 32768 data pages makes the writer fail. *)
+Lemma write_file_chk_rejects pfx fu ef lay rg col c :
+  layout_chunk lay rg col = Some c -> (32768 < N.of_nat (c_pages c))%N ->
+  write_file_chk pfx fu ef lay = None.
+Proof.
+  intros Hc Hp. unfold write_file_chk. destruct (layout_accepted lay) eqn:E; [|reflexivity].
+  exfalso. destruct (layout_accepted_spec lay E) as [_ H].
+  apply layout_chunk_some in Hc. destruct Hc as (cols & H1 & H2).
+  rewrite Forall_forall in H. destruct (H cols (nth_error_In _ _ H1)) as [_ H3].
+  rewrite Forall_forall in H3. specialize (H3 c (nth_error_In _ _ H2)). cbn in H3. lia.
+Qed.
+
+Lemma write_file_chk_some pfx fu ef lay wf :
+  write_file_chk pfx fu ef lay = Some wf -> wf = write_file pfx fu ef lay /\ wf_layout lay.
+Proof.
+  unfold write_file_chk. destruct (layout_accepted lay) eqn:E; [|discriminate].
+  intros H. injection H as <-. split; [reflexivity|]. now apply layout_accepted_wf.
+Qed.
+
 (** * Writer: the state machine puts the closed-form AAD at every position *)
 Lemma nth_write_data_pages pfx fu rgo colo n : forall np k, (k < n)%nat ->
   nth_error (write_data_pages pfx fu rgo colo np n) (2 * k) =
